@@ -260,6 +260,8 @@ func c07Run(c c07Case) []*core.Violation {
 		return []*core.Violation{hv}
 	}
 	firstJudged := 0
+	var openPrior []*refsmtp.Session
+	var openPriorMark []int
 	if c.Prior {
 		// first act: a well-behaved server at the same address; what the client learns there must not
 		// weaken what it does on the next connection
@@ -286,6 +288,14 @@ func c07Run(c c07Case) []*core.Violation {
 			prior.Release()
 		}
 		firstJudged = len(ln.SessionsSnapshot())
+		if c.PriorOpen && c.SetupAfterPrior {
+			// the first connection stays open while the policy is tightened: whatever the client sends on it
+			// from now on is judged under the new policy as well
+			for _, ps := range ln.SessionsSnapshot() {
+				openPrior = append(openPrior, ps)
+				openPriorMark = append(openPriorMark, len(ps.CleartextSoFar()))
+			}
+		}
 		ln.SetServer(srv)
 		if c.SetupAfterPrior {
 			if hv := applySetup(); hv != nil {
@@ -313,7 +323,7 @@ func c07Run(c c07Case) []*core.Violation {
 			done <- err
 			return
 		}
-		done <- cl.DialAndSendWithContext(context.Background(), m)
+		done <- cl.DialAndSend(m)
 	}()
 	var callErr error
 	select {
@@ -335,6 +345,27 @@ func c07Run(c c07Case) []*core.Violation {
 	}
 	if policy == "implicit-fallback" {
 		policy = "implicit"
+	}
+	for i, ps := range openPrior {
+		sofar := ps.CleartextSoFar()
+		if len(sofar) <= openPriorMark[i] {
+			continue
+		}
+		later := string(sofar[openPriorMark[i]:])
+		for _, line := range strings.Split(later, "\r\n") {
+			f := strings.Fields(line)
+			if len(f) == 0 {
+				continue
+			}
+			switch strings.ToUpper(f[0]) {
+			case "QUIT", "NOOP", "RSET":
+			default:
+				if c.Policy == "mandatory" || c.Policy == "implicit" {
+					vs0 := core.V("cleartext-under-mandatory-tls", "after the policy was changed to %s the client went on using the unencrypted connection it had opened before: %q\n%s", c.Policy, clipS(line), ps.Transcript(30))
+					return []*core.Violation{vs0}
+				}
+			}
+		}
 	}
 	for si, s := range sessions {
 		if si < firstJudged {
@@ -693,7 +724,7 @@ func c07NameRun(c c07NameCase) []*core.Violation {
 		return nil
 	}
 	r := watchdog(20*time.Second, d, func() error {
-		return cl.DialAndSendWithContext(context.Background(), simpleMsg(1, 1, "quoted-printable"))
+		return cl.DialAndSend(simpleMsg(1, 1, "quoted-printable"))
 	})
 	d.Shutdown()
 	if r.Panic != nil {
